@@ -3,7 +3,20 @@
    STATUS: PARTIAL.  The full statement wanted is the forward simulation
        vm_refines_ref : forall p f tr v, run_ref f p = "OK:" tr v -> exists n, the VM model run on compile_block p yields tr and v
    between the reference semantics (VM/RefSem.v, the reading of the property text) and the mechanism model of the
-   stack machine (VM/VmDefs.v, VM/VmExec.v).  It is NOT proved.  What is proved, for all arguments / states / arrays:
+   stack machine (VM/VmDefs.v, VM/VmExec.v).  It is NOT proved for the whole language.  What is proved, for all
+   arguments / states / arrays:
+     - the forward simulation for STRUCTURED PROGRAMS (VM/SimDefs.v, SimProofs.v, SimBlock.v, SimCtl.v): statements `e`,
+       `x = e`, `private _x = e` whose expressions are literals, variables (also holding code), arrays, the pure unary
+       and binary operators, `call {..}`, `x call {..}`, `if c then {..}`, `if c then {..} else {..}`, nested to any
+       depth in operands, array elements, assignments and blocks (big-step relation xev / xblock).  For every
+       derivation: the reference semantics computes that value and state (C02_ref_runs_structured_blocks), and the VM
+       model, started anywhere in any code that contains the compiled block, in any state that Matches the
+       reference state (scope chain = frame chain, namespaces), pushes the frames, runs exactly those instructions,
+       completes each frame handing over exactly the block's value, and stops in a state that Matches the reference
+       result (C02_vm_runs_structured_blocks, C02_vm_runs_structured_expressions) - unbounded in size and nesting.
+       NOT covered by the simulation: loops (while / for / forEach / count / select / apply / findIf), switch,
+       exitWith, breakOut, try / catch / throw, waitUntil, nil operands - for these the per-construct theorems below
+       and the program-level differential are the evidence;
      - the compiler emits the post-order of the source (code blocks, binary operators, arrays);
      - per-construct characterisations of the VM model: which block is entered, with which bindings, how often, and when a
        construct ends (lazy && / ||, if-then-else, exitWith, forEach, count, select, apply, findIf, for, while, switch with
@@ -16,7 +29,7 @@
    Properties_C05 (one value per scope, regions). *)
 From Coq Require Import String Ascii.
 From Coq Require Import ZArith List Bool.
-From SqfVerif Require Import Gen.DiagCodes Gen.Overloads VM.VmDefs VM.VmExec VM.RefSem VM.C02Proofs VM.SimDefs VM.SimProofs.
+From SqfVerif Require Import Gen.DiagCodes Gen.Overloads VM.VmDefs VM.VmExec VM.RefSem VM.C02Proofs VM.SimDefs VM.SimProofs VM.SimBlock VM.SimCtl.
 Import ListNotations.
 Local Open Scope string_scope.
 Local Open Scope list_scope.
@@ -163,4 +176,90 @@ Proof.
   eapply PBin; [eapply PArr; eapply PCons; [eapply PBin; [eapply PVarL; reflexivity|eapply PNum|reflexivity]|
                    eapply PCons; [eapply PUn; [intros ? ?; discriminate|eapply PVarG; reflexivity|reflexivity]|eapply PNil]]
                   |eapply PArr; eapply PCons; [eapply PBool|eapply PNil]|reflexivity].
+Qed.
+
+(* ---- simulation, straight-line blocks: statements `e`, `x = e`, `private _x = e` over that fragment.  The reference
+   state (scope chain, namespaces) and the machine state (frame chain, namespaces) are related by Match; At bundles it
+   with "execute_do keeps going" and "the value region of the running frame is the block's value so far". *)
+Theorem C02_ref_runs_straight_line_blocks : forall s reg b reg' s', pblock s reg b reg' s' ->
+  forall f, bsize b <= f -> eval_block f s b reg = (ONormal reg', s').
+Proof. exact block_ref. Qed.
+Print Assumptions C02_ref_runs_straight_line_blocks.
+Theorem C02_vm_runs_straight_line_blocks : forall s reg b reg' s', pblock s reg b reg' s' ->
+  forall r c f rest below pre post, At s reg r c f rest below ->
+    f_code f = pre ++ compile_block b ++ post -> f_pos f = length pre ->
+    exists r' c' f' rest', Steps r r' /\ At s' reg' r' c' f' rest' below /\
+      moved f f' /\ f_pos f' = f_pos f + length (compile_block b) /\ Forall2 kept rest rest'.
+Proof. exact block_vm. Qed.
+Print Assumptions C02_vm_runs_straight_line_blocks.
+
+(* the hypotheses are satisfiable: a loaded program in a running machine stands At the initial reference state, and a
+   three-statement block with a private variable, a global and an array has a derivation *)
+Definition ex_block : list stmt :=
+  [SLocal "_a" (ENum 2); SAssign "b" (EArr [EVar "_a"; EBinary "+" (EVar "_a") (ENum 1)]); SExpr (EUnary "count" (EVar "b"))].
+Definition ex_running : rt :=
+  let r := load (create_rt [] 0 0 (100 * 100) 150) (compile_block ex_block) in
+  rt_with r (r_ctxs r) (Some 0) StRunning false false true false [] [] (r_nss r) (r_clock r) (r_timestamp r) (r_next_id r).
+Example straight_line_inhabited :
+  (exists c f, At init_state RNone ex_running c f [] [] /\ f_code f = [] ++ compile_block ex_block ++ [] /\ f_pos f = length (@nil instr)) /\
+  (exists s', pblock init_state RNone ex_block (RNum 2) s').
+Proof.
+  split.
+  - exists (push_frame (new_context 0 false) (mk_frame default_ns (compile_block ex_block) None None [])),
+           (mk_frame default_ns (compile_block ex_block) None None []).
+    split; [|split; [cbn [app]; rewrite app_nil_r|]; reflexivity].
+    split; [unfold Good; split; [reflexivity|cbn; auto 10]|]. split; [reflexivity|]. split.
+    + split; [|reflexivity]. cbn. constructor; [|constructor]. repeat split.
+    + split; [reflexivity|]. exists []. split; reflexivity.
+  - eexists. eapply PBCons; [eapply PSLocal; [discriminate|eapply PNum]|].
+    eapply PBCons; [eapply PSAssign; [discriminate|]|].
+    + eapply PArr. eapply PCons; [eapply PVarL; reflexivity|]. eapply PCons; [|eapply PNil].
+      eapply PBin; [eapply PVarL; reflexivity|eapply PNum|reflexivity].
+    + eapply PBLast. eapply PSExpr. eapply PUn; [intros ? ?; discriminate|eapply PVarG; reflexivity|reflexivity].
+Qed.
+
+(* ---- simulation, structured programs: expressions that enter blocks - `call {..}`, `x call {..}`, `if c then {..}`,
+   `if c then {..} else {..}`, code values held in variables - nested to any depth in operands, array elements,
+   assignments and blocks (relation xev / xblock of VM/SimCtl.v).  The machine pushes the frame, runs the block,
+   completes the frame, hands over exactly the block's value, and ends in a state that Matches the reference result. *)
+Theorem C02_ref_runs_structured_blocks : forall s reg b reg' s', xblock s reg b reg' s' ->
+  exists f0, forall f, f0 <= f -> eval_block f s b reg = (ONormal reg', s').
+Proof. exact (proj2 (proj2 (proj2 ref_runs))). Qed.
+Print Assumptions C02_ref_runs_structured_blocks.
+Theorem C02_vm_runs_structured_blocks : forall s reg b reg' s', xblock s reg b reg' s' ->
+  forall r c f rest below pre post, AtM s reg r c f rest below ->
+    f_code f = pre ++ compile_block b ++ post -> f_pos f = length pre ->
+    exists r' c' f' rest', Steps r r' /\ AtM s' reg' r' c' f' rest' below /\
+      moved f f' /\ f_pos f' = f_pos f + length (compile_block b) /\ Forall2 kept rest rest'.
+Proof. exact (proj2 (proj2 (proj2 vm_runs))). Qed.
+Print Assumptions C02_vm_runs_structured_blocks.
+Theorem C02_vm_runs_structured_expressions : forall s e v s', xev s e v s' ->
+  forall r c f rest pre post, Mach s r c f rest ->
+    f_code f = pre ++ compile_expr e ++ post -> f_pos f = length pre ->
+    exists r' c' f' rest', Steps r r' /\ Mach s' r' c' f' rest' /\ c_values c' = cv v :: c_values c /\
+      moved f f' /\ f_pos f' = f_pos f + length (compile_expr e) /\ Forall2 kept rest rest'.
+Proof. exact (proj1 vm_runs). Qed.
+Print Assumptions C02_vm_runs_structured_expressions.
+
+Definition ex_ctl : list stmt :=
+  [SLocal "_f" (ECode [SExpr (EBinary "+" (EVar "_this") (ENum 1))]);
+   SAssign "r" (EBinary "call" (ENum 2) (EVar "_f"));
+   SExpr (EBinary "then" (EUnary "if" (EBinary ">" (EVar "r") (ENum 2)))
+                         (EBinary "else" (ECode [SAssign "r" (ENum 10); SExpr (EVar "r")]) (ECode [SExpr (ENum 0)])))].
+Example structured_inhabited : exists reg s', xblock init_state RNone ex_ctl reg s' /\ reg = RNum 10.
+Proof.
+  eexists _, _. split.
+  { eapply XBCons; [eapply XSLocal; [discriminate|eapply XCode|split; discriminate]|].
+    eapply XBCons.
+    - eapply XSAssign; [discriminate| |].
+      + eapply XCallB; [reflexivity|eapply XPure; eapply PNum|split; discriminate|eapply XVarL; [reflexivity|reflexivity|split; discriminate]|].
+        eapply XBLast. eapply XSExprV. eapply XPure. eapply PBin; [eapply PVarL; reflexivity|eapply PNum|reflexivity].
+      + split; discriminate.
+    - eapply XBLast. eapply XSExprV.
+      eapply (XThenElse _ _ _ _ true); [reflexivity| | |].
+      + eapply XIf; [reflexivity|intros ? ?; discriminate|]. eapply XPure. eapply PBin; [eapply PVarG; reflexivity|eapply PNum|reflexivity].
+      + eapply XElse; [reflexivity|eapply XCode|eapply XCode].
+      + eapply XBCons; [eapply XSAssign; [discriminate|eapply XPure; eapply PNum|split; discriminate]|].
+        eapply XBLast. eapply XSExprV. eapply XPure. eapply PVarG; reflexivity. }
+  reflexivity.
 Qed.
